@@ -285,7 +285,7 @@ def register_props(PROPS, g):
         "clean": "; every third case from the sandbox root with a relative --spokfile; every fifth with stdout on /dev/full; an implementation-only family with symbolic links (as outputs, as the way to the project)",
         "effects": "; unreadable cache files left by earlier faults; decoy scratch files next to the spokfile; the spokfile as a symbolic link",
         "graph": "; variables named like tasks; selections of 13-22 tasks in interleaved chains",
-        "syntax": "; every symbol string of length <= 3 inside 9 contexts (bodies, later command lines, argument lists, right-hand sides, outputs, comments, strings); an extended alphabet (BOM, Unicode spaces, NEL, letters ending in 0x85/0xA0, lone CR) for length <= 2 everywhere and in mutations; lines of 64 KiB and more (implementation only)",
+        "syntax": "; every symbol string of length <= 3 inside 12 contexts (bodies, later command lines, argument lists, right-hand sides, outputs, comments, strings, a second string where none is expected); an extended alphabet (BOM, Unicode spaces, NEL, letters ending in 0x85/0xA0, lone CR) for length <= 2 everywhere and in mutations; lines of 64 KiB and more (implementation only)",
         "cst": "; identifiers in Hebrew, Cyrillic, Greek, Arabic, full-width and mathematical letters; later command lines starting with {{; comments starting with '#'; one file in eight re-rendered with Unicode spaces in its layout (implementation only); comments and docstrings read off the formatted text by an independent scanner; `spok --fmt` itself run twice on loadable files among decoy scratch files",
         "vars": "; references written with blanks inside the delimiters; variable names that look like Go method names",
     }
